@@ -101,6 +101,7 @@ pub struct Ctx {
     cur_phase: usize,
     cur_idx: u64,
     crumb: Option<std::fs::File>,
+    last_crumb: String,
     pub extra: BTreeMap<String, Value>,
 }
 
@@ -126,12 +127,16 @@ impl Ctx {
             cur_phase: 0,
             cur_idx: 0,
             crumb: None,
+            last_crumb: String::new(),
             extra: BTreeMap::new(),
         }
     }
 
     /// record the "call event": what is about to be executed, before calling into rateslib
     pub fn crumb(&mut self, text: &str) {
+        if text != "case start" {
+            self.last_crumb = crate::util::clip(text, 2000).to_string();
+        }
         if let Some(f) = &self.crumb {
             let mut buf = [b' '; 1024];
             let s = format!("phase={} idx={} {}", self.cur_phase, self.cur_idx, text);
@@ -324,7 +329,7 @@ fn run_one(prop: &mut dyn Prop, ctx: &mut Ctx, id: &str, phase: usize, idx: u64)
                 // a panic escaped a rateslib call that the monitor did not expect to panic
                 ctx.violation(
                     &format!("{}|panic|{}", id, short_loc(&loc)),
-                    json!({"what": "a call into rateslib panicked", "location": loc, "message": msg}),
+                    json!({"what": "a call into rateslib panicked", "location": loc, "message": msg, "last_breadcrumb": ctx.last_crumb}),
                 );
             }
         }
